@@ -311,6 +311,11 @@ Theorem C02_source_gbc_area_outside_32_bits_is_refused : forall sn res so lat lo
 Proof. exact src_gbc_encode_overflow. Qed.
 Print Assumptions C02_source_gbc_area_outside_32_bits_is_refused.
 
+Theorem C02_source_common_header_decoder_is_the_model : forall x, 0 <= x < 2 ^ 64 ->
+  CommonHeader_decode_from_int x = option_map common_tuple (view_common (unpack common_ws x)).
+Proof. exact src_common_decode. Qed.
+Print Assumptions C02_source_common_header_decoder_is_the_model.
+
 Example C02_source_example :
   LPV_encode 0 5 [0; 0; 0; 0; 43; 103] 123456 (-338688000) (-1512093000) 1 (-300) 3599
   = Some (enc_lpv [0; 5; 11111; 123456; -338688000; -1512093000; 1; -300; 3599]).
